@@ -56,13 +56,14 @@ def cases(tier, seed, rnd):
 
 
 def is_tol(spec):
-    return spec['atom'] in TOL_ATOMS or (spec['form'] in ('le_scaled', 'obj_scaled') and spec['atom'] in ('square', 'sumsqr'))
+    return spec['atom'] in TOL_ATOMS or (spec['form'] in ('le_scaled', 'obj_scaled') and spec['atom'] in ('square', 'sumsqr')) \
+        or (spec.get('base') == 'square' and spec['form'] == 'bcast_scaled')
 
 
 def run_case(case, ses):
     spec = case['spec']
     z3 = z3mod()
-    tower = spec['atom'] in TOWER_ATOMS
+    tower = spec['atom'] in TOWER_ATOMS or spec.get('base') == 'power3'
     with quiet():
         cm = Compiled(detgen.desc_from_spec(spec), abstract_towers=tower)
     ses.stats.programs += 1
@@ -102,6 +103,22 @@ def run_case(case, ses):
             vstar = [float(fval(model, v)) for v in vs]
             data = dict(spec=spec, row=row['label'], v=vstar)
             good, info = replay(data, want_info=True)
+            if not good and (spec['atom'] in detgen.EXP_ATOMS or spec.get('base') in ('exp', 'log')):
+                # cone-term abstraction: the abstract model need not be a real point (phi is uninterpreted).
+                # Look for a real one: solve the REAL compiled program (ECOS, true exp cone) for random linear
+                # objectives over the user's columns and evaluate the user's constraint there.
+                pt = numeric_cex(cm, row)
+                if pt is not None:
+                    data = dict(spec=spec, row=row['label'], v=pt)
+                    good, info = replay(data, want_info=True)
+                    if good:
+                        finding(ses, 'C06:%s:%s' % (name, row['label']),
+                                'model %s: the real compiled program admits a point violating the user constraint %s by %.3g'
+                                % (name, row['label'], info['viol']), data, 'rsv.props.c06:replay')
+                        continue
+                ses.stats.undecided += 1
+                ses.stats.notes.append('abstract counterexample without a real witness (undecided): %s' % label)
+                continue
             if not good:
                 raise HarnessError('C06 counterexample does not reproduce: %s (%s)' % (label, info))
             finding(ses, 'C06:%s:%s' % (name, row['label']),
@@ -114,6 +131,31 @@ def run_case(case, ses):
     layer_b(ses, spec, cm, rows)
 
 
+def numeric_cex(cm, row, tries=24):
+    import random
+    from rsome.gcp import GCProg
+    from rsome import eco_solver
+    f = cm.formula
+    rnd = random.Random(7)
+    cols = sorted(set(cm.iface.values()))
+    for k in range(tries):
+        obj = np.zeros(f.linear.shape[1])
+        for c in cols:
+            obj[c] = rnd.choice([-1, 1, 0.5, -0.5, 0, 2, -2])
+        g = GCProg(f.linear, f.const, f.sense, f.vtype, f.ub, f.lb, f.qmat, f.xmat, [], obj)
+        with quiet():
+            try:
+                sol = eco_solver.solve(g, display=False)
+            except Exception:
+                continue
+        if sol is None or sol.x is None:
+            continue
+        assign = {n: float(sol.x[c]) for n, c in cm.iface.items()}
+        if cons_eval(row['cons'], assign) > 1e-5:
+            return [float(t) for t in sol.x]
+    return None
+
+
 def layer_b(ses, spec, cm, rows):
     name = spec['name']
     if cm.pcalls:
@@ -122,7 +164,7 @@ def layer_b(ses, spec, cm, rows):
     m = cm.r.m
     with quiet():
         try:
-            if cm.cp.qmat:
+            if cm.cp.qmat or cm.cp.xmat:
                 from rsome import eco_solver as solver
                 m.solve(solver, display=False)
             else:
@@ -161,7 +203,7 @@ def replay(data, verbose=False, want_info=False):
     user's constraint evaluated directly at its user-variable part is violated."""
     spec = data['spec']
     with quiet():
-        cm = Compiled(detgen.desc_from_spec(spec), abstract_towers=(spec['atom'] in TOWER_ATOMS and data['row'] != 'solver-point'))
+        cm = Compiled(detgen.desc_from_spec(spec), abstract_towers=((spec['atom'] in TOWER_ATOMS or spec.get('base') == 'power3') and data['row'] != 'solver-point'))
     v = data['v']
     info = {}
     rows = cm.rows()
@@ -169,7 +211,7 @@ def replay(data, verbose=False, want_info=False):
     if data['row'] == 'solver-point':
         with quiet():
             from rsome import eco_solver as solver
-            cm.r.m.solve(solver if cm.cp.qmat else None, display=False)
+            cm.r.m.solve(solver if (cm.cp.qmat or cm.cp.xmat) else None, display=False)
         x = np.array(cm.r.m.solution.x, dtype=float)
         assign = {n: float(x[c]) for n, c in cm.iface.items()}
         worst = max(cons_eval(r['cons'], assign) for r in rows if r['label'].split('.')[0] != 'obj')
@@ -177,7 +219,7 @@ def replay(data, verbose=False, want_info=False):
             print('solve() point: worst user-constraint violation %.3g, get()=%r' % (worst, cm.r.m.get()))
         info['viol'] = worst
         return (True, info) if want_info else True
-    bad = cm.cp.check_point(v, tol=Fraction(1, 10 ** 7))
+    bad = cm.cp.check_point(v, tol=Fraction(1, 10 ** 6) if cm.cp.xmat else Fraction(1, 10 ** 7))
     info['program_violations'] = bad[:3]
     if bad:
         if verbose:
